@@ -278,13 +278,15 @@ def run_pipeline(case, producers_first=True, rng=None, whole_run=False, program=
     else:
         args["InFieldNames"] = ListArgument("InFieldNames", list(names), ARG_LINE0, [ARG_LINE0] * len(names))
     np_params = rng is not None and rng.random() < 0.25
+    used = {}
     for k in pmap:
         if k in case.params:
             v = case.params[k]
             if np_params:
                 v = [_np_scalar(rng, x) for x in v] if isinstance(v, (list, tuple)) else _np_scalar(rng, v)
+            used[k] = v
             args[k] = ListArgument(k, list(v), ARG_LINE0 + 5, [ARG_LINE0 + 5] * len(v)) if isinstance(v, (list, tuple)) else Argument(k, v, ARG_LINE0 + 5)
-    out = {"inputs_after": inputs, "program": p}
+    out = {"inputs_after": inputs, "program": p, "np_params": np_params, "params_used": used}
     with warnings.catch_warnings():
         warnings.simplefilter("ignore")
         old = numpy.seterr(all="ignore")
@@ -566,6 +568,8 @@ def gen_inputs(rng, cmd, shape=None, n=None, style="valid", dtypes=None, mask_st
             dt = float if fuzzy_in else (int if rng.random() < 0.3 else float)
             vals = [dt(t) if rng.random() < 0.65 else dt(rng.choice(lat)) for t in tied]
             arrs.append(make_array(vals, rand_mask(rng, len(vals), mask_style), shape, dt, rng))
+        elif fuzzy_in and rng.random() < 0.12:
+            arrs.append(rand_array(rng, shape, int, [-1, 0, 1], mask_style))          # crisp fuzzy values held in an integer array
         elif fuzzy_in:
             lat = FUZZY_LATTICE if style != "wild" or rng.random() < 0.8 else QUARTERS
             arrs.append(rand_array(rng, shape, float, lat, mask_style))
@@ -808,6 +812,9 @@ def run_stream(ctx, model, cases, stream, tol=common.TOL, on_result=None, rerun=
                 ctx.count("pipeline_twins_float32")
             piped = run_pipeline(cc, producers_first=bool(ctx.rng.random() < 0.7), rng=ctx.rng, whole_run=bool(ctx.rng.random() < 0.5))
             ctx.count("pipeline_twins")
+            if piped["np_params"]:
+                # numbers given as numpy scalars of some width: the body's own outcome on those very scalars is the reference (narrow scalars round)
+                direct = run_impl(Case(cc.cmd, piped["params_used"], cc.inputs))
             d = pipeline_differs(direct, piped)
             if d:
                 ctx.fail("%s: evaluated inside a Program (arguments cleaned, body run by Command.run) the outcome differs from the body's own: %s" % (c.cmd, d), c.describe())
